@@ -168,5 +168,6 @@ EXTRA_FILES = {
     "ppa/pp_a.F90": "#include \"hdr_a.h\"\nmodule pp_a\n  implicit none\n#ifdef ONLY_PP_A_MACRO\n  integer :: pp_a_hdr_seen\n#else\n  integer :: pp_a_hdr_missing\n#endif\nend module pp_a\n",
     "ppb/pp_b.F90": "module pp_b\n  implicit none\n  integer :: pp_b_var\nend module pp_b\n",
     "ppb/hdr_a.h": "#define ONLY_PP_A_MACRO 1\n",
+    "ppg/guarded.F90": "#ifndef PPG_GUARD\n#define PPG_GUARD\n#define PPG_LEN 3\nmodule ppg\n  implicit none\n  integer :: ppg_arr(PPG_LEN)\n  integer :: ppg_var\ncontains\n  subroutine ppg_sub(pa)\n    integer, intent(in) :: pa\n    ppg_var = pa + ppg_arr(1)\n  end subroutine ppg_sub\nend module ppg\n#endif\n",
     "smods/smuse.f90": "program smuse\n  use smodp\n  use iu1, only: inc_var_a\n  implicit none\n  integer :: q\n  q = sm_fun(inc_var_a)\n  call sm_work(q)\n  call iu2()\nend program smuse\n",
 }
